@@ -18,6 +18,7 @@ func runC16(c *Ctx) {
 	L := c.L
 	c.checkOrfNormalisation("orf-normalisation")
 	c.checkBestLengthComparison("best-length-comparison")
+	c.checkReverseSearchEveryRow("reverse-search-every-row")
 	ph := c.fn("align", "*phaser", "Phase")
 	sc := c.fn("align", "*seqbag", "SequencesChan")
 	c.checkJoinProtocol(ph, "")
